@@ -158,6 +158,15 @@ func (e *Env) eval(x Expr) *Value {
 		return g.unbox(e.st, v, t)
 	case *SliceE:
 		s := e.eval(n.X)
+		if pt, ok := types.Unalias(s.T).Underlying().(*types.Pointer); ok && len(s.L) == 1 {
+			// p[lo:hi] of a pointer to a boxed array: the slice over the pointee
+			if arr, ok := types.Unalias(pt.Elem()).Underlying().(*types.Array); ok {
+				if base := g.lvOf(e.fr, e.st, s); base != nil && base.Kind == lvBox && base.Path == "" {
+					nn := fmt.Sprint(arr.Len())
+					s = &Value{T: types.NewSlice(arr.Elem()), L: []string{base.Obj, "0", nn, nn}}
+				}
+			}
+		}
 		if len(s.L) != 4 {
 			return e.fail("slice expression on non-slice %s", exprString(n.X))
 		}
@@ -888,6 +897,18 @@ func (e *Env) evalCall(n *Call) *Value {
 			return e.fail("tag() of non-interface")
 		}
 		return mathVal(v.L[0])
+	case "ival":
+		// payload word of an interface value (with tag(x): its identity)
+		v := e.eval(n.Args[0])
+		if len(v.L) != 2 {
+			return e.fail("ival() of non-interface")
+		}
+		return mathVal(v.L[1])
+	case "cat":
+		// concatenation of two content identities (see appendOp)
+		a, b := e.eval(n.Args[0]), e.eval(n.Args[1])
+		g.decl("(declare-fun bytescat (Int Int) Int)")
+		return mathVal("(bytescat " + a.term() + " " + b.term() + ")")
 	case "stdlib_type":
 		// the dynamic type of this interface value is declared outside the module (standard library)
 		v := e.eval(n.Args[0])
